@@ -128,6 +128,7 @@ type Tr struct {
 	closuresSeen []*Closure
 	lockMode  bool
 	inlineBudget int
+	firstIterHints []Term // replay preference: loop-head state of the first iteration
 	isRoot    func(fn *ssa.Function) bool // obligations inside inlined copies of these are dropped
 }
 
